@@ -317,6 +317,49 @@ func Mergeable(rng *rand.Rand, opt Options) []*Service {
 			}
 		}
 	}
+	if opt.Rich && rng.Intn(2) == 0 {
+		// Relay connection edges: an object field literally called `node` that is NOT the Relay entry point,
+		// either on a per-service edge type or directly on a Node type
+		for si := 0; si < n; si++ {
+			for _, tn := range nodeNames {
+				if ss[si].Def(tn) == nil || rng.Intn(3) != 0 {
+					continue
+				}
+				e := ss[si].ensure("OBJECT", fmt.Sprintf("%sEdge%d", tn, si))
+				e.Fields = []Field{{Name: "cursor", Type: "String"}, {Name: "node", Type: tn}}
+				if rng.Intn(2) == 0 {
+					d := ss[si].Def(tn)
+					if d.Field("node") == nil {
+						taken := false
+						for sj := range ss {
+							if dj := ss[sj].Def(tn); dj != nil && dj.Field("node") != nil {
+								taken = true
+							}
+						}
+						if !taken {
+							d.Fields = append(d.Fields, Field{Name: "node", Type: tn})
+						}
+					}
+				}
+			}
+		}
+	}
+	if opt.Rich {
+		// descriptions on some shared types (equal, different, or only on one side)
+		for si := 0; si < n; si++ {
+			for _, d := range ss[si].Defs {
+				if d.Name == "Node" || d.Kind == "SCALAR" {
+					continue
+				}
+				switch rng.Intn(6) {
+				case 0:
+					d.Desc = "about " + d.Name
+				case 1:
+					d.Desc = fmt.Sprintf("%s as seen by service %d", d.Name, si)
+				}
+			}
+		}
+	}
 	// roots: unique field names per service
 	for si, s := range ss {
 		q := s.ensure("OBJECT", "Query")
@@ -404,7 +447,15 @@ func Conflict(rng *rand.Rand, base []*Service, kind string) (out []*Service, ok 
 		db := b.ensure("OBJECT", "Ov")
 		db.Ifaces = []string{"Node"}
 		db.Fields = []Field{{Name: "id", Type: "ID!"}, {Name: "shared", Type: "Int"}}
-		if rng.Intn(2) == 0 {
+		switch rng.Intn(4) {
+		case 0:
+			db.Fields = append(db.Fields, Field{Name: "onlyB", Type: "Int"})
+		case 1:
+			// identical non-id field sets in both services
+			da.Fields = []Field{{Name: "id", Type: "ID!"}, {Name: "shared", Type: "Int"}}
+		case 2:
+			// B is the superset
+			da.Fields = []Field{{Name: "id", Type: "ID!"}, {Name: "shared", Type: "Int"}}
 			db.Fields = append(db.Fields, Field{Name: "onlyB", Type: "Int"})
 		}
 	case "partial_overlap":
